@@ -367,3 +367,34 @@ def scale(item):
     return {"ok": not bad and tot == float(item["events"]), "bad": bad[:10], "nbad": len(bad), "cells_checked": n,
             "total": tot, "expected_total": item["events"], "limit": int(cu.COO_QUICKSORT_LIMIT),
             "coo_sizes": [int(x) for x in m._coo_sizes]}
+
+
+def run_unseen(item):
+    """C01: fit on a corpus holding exactly the seen tokens, transform the corpus that also holds unseen ones"""
+    fam = item["family"]
+    C = _cls(fam)
+    c, V = item["cfg"], item["V"]
+    kw = kwargs_for(c, V, False, item.get("explicit", False))
+    if item["mask"]:
+        kw["mask_string"] = MASK_STRING
+    seen = [t for t in range(V) if t not in item["unseen"]]
+    train = [[TOKS[t] for t in seen] * 2, [TOKS[seen[0]]]]
+    X = docs_of(item["corpus"])
+    exp = expected_cells(item["cells"], V)
+    fails = []
+    m = C(**kw)
+    m.fit(train)
+    n = len(m.token_label_dictionary_)
+    width = len(m.column_label_dictionary_)
+    try:
+        M = m.transform(X)
+    except Exception as e:  # noqa
+        return {"ok": False, "fails": ["transform raised " + type(e).__name__ + ": " + str(e)[:120]]}
+    if M.shape != (n, width):
+        fails.append("shape %s instead of %s" % (list(M.shape), [n, width]))
+    if len(m.token_label_dictionary_) != n or len(m.column_label_dictionary_) != width:
+        fails.append("transform changed the fitted dictionaries")
+    bad = compare(exp, observed_cells(m, M))
+    if bad:
+        fails.append("cells differ from the definition on the fitted vocabulary")
+    return {"ok": not fails, "fails": fails, "bad": bad[:4]}
